@@ -69,6 +69,10 @@ func runCase(r *ev.Run, idx int) {
 	g.Weights = kvlab.MutationWeights()
 	g.ImportLeases = true
 	g.LeaseTokens = []uint64{1, kvlab.FarFuture, rng.Uint64() >> 1}
+	defer func() { r.Count("mutations_with_a_bulk_key_set(15..300 keys)", int64(g.BulkOps)) }()
+	if idx%3 == 1 {
+		g.BulkMax = 300 // hand-overs of whole key ranges (one mutation, hundreds of keys)
+	}
 	// segment pressure: some histories carry values that roll the 2 MB segment
 	big := idx%5 == 4 || (!r.Quick() && idx%2 == 1)
 	bigLeft := 0
